@@ -938,7 +938,7 @@ func (r *layoutRun) corpus(ci int, c *sCorpus, nQueries int) error {
 			if !sxEqualInts(obs.ids, want.ids) {
 				desc["got"], desc["want"] = obs.ids, want.ids
 				key := "match-set"
-				if b.scoreNone && sxScoreNoneShouldDefect(q) && sxSubsetInts(want.ids, obs.ids) {
+				if b.scoreNone && sxScoreNoneKnown(q, c, obs.ids, want.ids) {
 					key = "score-none-drops-min-should"
 				}
 				w.OracleFail(key, "the match set of this build differs from the documented meaning over the logical documents", desc)
@@ -988,7 +988,9 @@ func (r *layoutRun) corpus(ci int, c *sCorpus, nQueries int) error {
 				}
 			}
 		}
-		if rcost <= 1500 {
+		if rcost <= 1500 && !sxScoreNoneShouldDefect(q) {
+			// (queries of the known scoring-none class are judged by the oracle only: the score-none builds
+			// may legitimately answer them differently)
 			qitems = append(qitems, fmt.Sprintf("(%s, %s)", q.coq(env), cq.IntList(want.ids)))
 			qmeta = append(qmeta, q.String())
 		}
